@@ -205,7 +205,21 @@ class Run:
         fixed = cfg.get('fixed', [])
         rest = pool[len(fixed):]
         rng.shuffle(rest)
-        chosen = (fixed + rest)[:K * (8 if cfg.get('accept') else 1)]
+        # spread the sample over structurally different descriptions: bucket every parameter (0, 1, small, large) and take
+        # one witness per distinct bucket vector, round-robin, before taking a second one of any
+        def shape(a):
+            return tuple(x if x < 10 else (10 if x < 64 else 11) for x in (int(v) & ((1 << 64) - 1) for v in a))
+        groups = {}
+        for a in rest: groups.setdefault(shape(a), []).append(a)
+        order = list(groups.values()); rng.shuffle(order)
+        spread = []
+        while order and len(spread) < len(rest):
+            nxt = []
+            for g in order:
+                spread.append(g.pop())
+                if g: nxt.append(g)
+            order = nxt
+        chosen = (fixed + spread)[:K * (8 if cfg.get('accept') else 1)]
         work = os.path.join(os.path.dirname(S.art['dir']), 'kani', self.prop.ID)
         os.makedirs(work, exist_ok=True)
         ws = []; t0 = time.time()
